@@ -8,10 +8,16 @@ Core Lean only. Samples and gains live in one type `α` with `+`, `*`, `0`, `1` 
 instances `Rat` and `Int`); delays in milliseconds are exact `Rat` (the exact value of the Python
 float), sample rates are `Int` (the Python `int` passed to `process`).
 
+Two versions of the ms → samples conversion: `delaySamples` (exact arithmetic = "nearest sample", used
+by `step`/`meaning`, imported by C02/C03/C06) and `delaySamplesF` (binary64, what the code computes,
+used by `stepG delaySamplesF`, which the C20 driver runs); they agree on `Spec.floatExact` specs.
+`meaningStrict` at the end is the partial, independently defined literal meaning.
+
 A block of input is a list of frames, a frame is the list of the `nch` channel samples
 (`input_samples` of shape `(n, nch)`); the number of channels is passed separately because an empty
 block still has a width in numpy (`input_samples[:, i]` raises for a bad `i` even when `n = 0`).
 -/
+import Earverif.Model.Ieee
 namespace Earverif.TrackSpec
 
 /-- Sample/gain arithmetic used by the processors: `+`, `*`, `0`, `1` and the four laws the
@@ -435,6 +441,239 @@ def packSpec : MChan α → Spec α
 def packCoeffs : List (MChan α × Option α × Option Rat) → List (Spec α)
   | [] => []
   | (c, g, d) :: cs => .matrix (packSpec c) g d :: packCoeffs cs
+end
+
+
+/-! ## the delay in samples as the code computes it: in binary64
+
+`int(math.ceil((sample_rate * self.coefficient.delay) / 1000.0 - 0.5))` with `sample_rate` a Python
+`int` and `coefficient.delay` a Python `float`: the `int` is converted to binary64, the product, the
+quotient and the difference are each rounded to nearest-even (`Ieee.rn53`; the exponent range is not
+modelled: sample rates and delays are far from overflow/underflow), `math.ceil` and `int` are exact.
+`delaySamples` above is the same expression in exact arithmetic (= "the delay rounded to the nearest
+sample"); the two differ when `sample_rate·delay/1000` is within a few units in the last place of a
+half-integer (`Props/C20.lean: float_delay_counterexample`). -/
+
+/-- `int(math.ceil((sample_rate * delay) / 1000.0 - 0.5))` in binary64; `ms` is the exact value of the
+Python float `coefficient.delay`. -/
+def delaySamplesF (fs : Int) (ms : Rat) : Int :=
+  (Ieee.rn53 (Ieee.rn53 (Ieee.rn53 (Ieee.rn53 (fs : Rat) * ms) / 1000) - 1 / 2)).ceil
+
+/-- `MatrixCoefficientProcessor.init_delay` with the ms → samples conversion `ds` as a parameter
+(`ds = delaySamplesF`: the code; `ds = delaySamples`: `initDelay`). -/
+def initDelayG (ds : Int → Rat → Int) (fs : Int) (ms : Rat) (st : Option (Int × List α)) :
+    Except Err (Int × List α) :=
+  match st with
+  | none =>
+    let k := ds fs ms
+    if k < 0 then .error .negDelay else .ok (fs, zeros k.toNat)
+  | some (fs0, mem) => if fs0 = fs then .ok (fs0, mem) else .error .sampleRate
+
+mutual
+/-- `step` with the conversion `ds`: the same transliteration of `processor.process`, only
+`init_delay` differs. -/
+def stepG (ds : Int → Rat → Int) (fs : Int) (nch : Nat) : Proc α → List (List α) → Except Err (Proc α × List α)
+  | .silent, b => .ok (.silent, zeros b.length)
+  | .direct i, b =>
+    match chanIdx nch i with
+    | none => .error .index
+    | some k => .ok (.direct i, b.map (fun fr => fr.getD k Sample.zero))
+  | .mix ps, b =>
+    match stepListG ds fs nch ps b with
+    | .error e => .error e
+    | .ok (ps', outs) => .ok (.mix ps', vsum b.length outs)
+  | .gain p g, b =>
+    match stepG ds fs nch p b with
+    | .error e => .error e
+    | .ok (p', s) => .ok (.gain p' g, s.map (· * g))
+  | .matrix p g d st, b =>
+    match stepG ds fs nch p b with
+    | .error e => .error e
+    | .ok (p', s) =>
+      let s := scaleOpt g s
+      match d with
+      | none => .ok (.matrix p' g d st, s)
+      | some ms =>
+        match initDelayG ds fs ms st with
+        | .error e => .error e
+        | .ok (fs0, mem) =>
+          let r := delayProcess mem s
+          .ok (.matrix p' g d (some (fs0, r.2)), r.1)
+def stepListG (ds : Int → Rat → Int) (fs : Int) (nch : Nat) :
+    List (Proc α) → List (List α) → Except Err (List (Proc α) × List (List α))
+  | [], _ => .ok ([], [])
+  | p :: ps, b =>
+    match stepG ds fs nch p b with
+    | .error e => .error e
+    | .ok (p', o) =>
+      match stepListG ds fs nch ps b with
+      | .error e => .error e
+      | .ok (ps', os) => .ok (p' :: ps', o :: os)
+end
+
+/-- `runR` with the conversion `ds` -/
+def runRG (ds : Int → Rat → Int) (nch : Nat) : Proc α → List (Int × List (List α)) → Except Err (List (List α))
+  | _, [] => .ok []
+  | p, (fs, b) :: rest =>
+    match stepG ds fs nch p b with
+    | .error e => .error e
+    | .ok (p', o) =>
+      match runRG ds nch p' rest with
+      | .error e => .error e
+      | .ok os => .ok (o :: os)
+
+/-- `run` with the conversion `ds` -/
+def runG (ds : Int → Rat → Int) (fs : Int) (nch : Nat) : Proc α → List (List (List α)) → Except Err (List (List α))
+  | _, [] => .ok []
+  | p, b :: rest =>
+    match stepG ds fs nch p b with
+    | .error e => .error e
+    | .ok (p', o) =>
+      match runG ds fs nch p' rest with
+      | .error e => .error e
+      | .ok os => .ok (o :: os)
+
+/-- `p = TrackProcessor(spec); [p.process(fs, b) for b in parts]` as the code computes it (delays
+converted in binary64) -/
+def runSpecF [DecidableEq α] (fs : Int) (nch : Nat) (s : Spec α) (parts : List (List (List α))) :
+    Except Err (List (List α)) :=
+  match build (simplify s) with
+  | .error e => .error e
+  | .ok p => runG delaySamplesF fs nch p parts
+
+/-- `MultiTrackProcessor.process` with the conversion `ds` -/
+def stepMultiG (ds : Int → Rat → Int) (fs : Int) (nch : Nat) (ps : List (Proc α)) (b : List (List α)) :
+    Except Err (List (Proc α) × List (List α)) :=
+  match stepListG ds fs nch ps b with
+  | .error e => .error e
+  | .ok (ps', cols) =>
+    if cols.isEmpty then .error .emptyStack else .ok (ps', stack b.length cols)
+
+def runMultiG (ds : Int → Rat → Int) (fs : Int) (nch : Nat) :
+    List (Proc α) → List (List (List α)) → Except Err (List (List (List α)))
+  | _, [] => .ok []
+  | ps, b :: rest =>
+    match stepMultiG ds fs nch ps b with
+    | .error e => .error e
+    | .ok (ps', o) =>
+      match runMultiG ds fs nch ps' rest with
+      | .error e => .error e
+      | .ok os => .ok (o :: os)
+
+/-- `MultiTrackProcessor(specs)` run as the code computes it -/
+def runMultiSpecF [DecidableEq α] (fs : Int) (nch : Nat) (ss : List (Spec α)) (parts : List (List (List α))) :
+    Except Err (List (List (List α))) :=
+  match buildMulti ss with
+  | .error e => .error e
+  | .ok ps => runMultiG delaySamplesF fs nch ps parts
+
+mutual
+/-- every coefficient delay of the spec converts to the same number of samples in binary64 as in
+exact arithmetic at sample rate `fs` (decidable; `Props/C20.lean: delaySamplesF_eq_of_margin` gives a
+sufficient condition) -/
+def Spec.floatExact (fs : Int) : Spec α → Bool
+  | .direct _ => true
+  | .silent => true
+  | .mix ts => Spec.floatExactList fs ts
+  | .gain t _ => t.floatExact fs
+  | .matrix t _ d =>
+    t.floatExact fs && (match d with | none => true | some ms => decide (delaySamplesF fs ms = delaySamples fs ms))
+def Spec.floatExactList (fs : Int) : List (Spec α) → Bool
+  | [] => true
+  | t :: ts => t.floatExact fs && Spec.floatExactList fs ts
+end
+
+mutual
+/-- the same for a processor tree -/
+def Proc.floatExact (fs : Int) : Proc α → Bool
+  | .direct _ => true
+  | .silent => true
+  | .mix ps => Proc.floatExactList fs ps
+  | .gain p _ => p.floatExact fs
+  | .matrix p _ d _ =>
+    p.floatExact fs && (match d with | none => true | some ms => decide (delaySamplesF fs ms = delaySamples fs ms))
+def Proc.floatExactList (fs : Int) : List (Proc α) → Bool
+  | [] => true
+  | p :: ps => p.floatExact fs && Proc.floatExactList fs ps
+end
+
+/-! ## the literal meaning, strict
+
+An independent statement of "inputs summed, scaled by the gains, delayed by the coefficient delay
+rounded to the nearest sample", defined only on rectangular input: `none` if a frame does not have
+`nch` samples, if a direct index is outside `[-nch, nch)`, if the summands of a mix have different
+lengths or if a delay rounds to a negative number of samples.  It shares no helper with `step` /
+`meaning` (`chanIdx`, `getD`, `vsum`/`zipWith`, `delayBy` are not used). -/
+
+/-- column of a direct track index: Python's negative indices count from the end; `none` outside -/
+def colStrict (nch : Nat) (i : Int) : Option Nat :=
+  if 0 ≤ i then (if i < nch then some i.toNat else none)
+  else (if -(nch : Int) ≤ i then some (i + nch).toNat else none)
+
+/-- sample `k` of every frame; `none` if a frame is not `nch` wide or has no sample `k` -/
+def columnStrict (nch k : Nat) : List (List α) → Option (List α)
+  | [] => some []
+  | fr :: rest =>
+    if fr.length = nch then
+      match fr[k]?, columnStrict nch k rest with
+      | some v, some vs => some (v :: vs)
+      | _, _ => none
+    else none
+
+/-- element-wise sum of two signals of the same length; `none` otherwise -/
+def addStrict : List α → List α → Option (List α)
+  | [], [] => some []
+  | a :: as, b :: bs => (addStrict as bs).map (fun r => (a + b) :: r)
+  | _, _ => none
+
+/-- `acc + l₁ + l₂ + …` from the left (the order of `output += …`; `+` is not assumed associative) -/
+def sumStrictFrom (acc : List α) : List (List α) → Option (List α)
+  | [] => some acc
+  | l :: ls =>
+    match addStrict acc l with
+    | some a => sumStrictFrom a ls
+    | none => none
+
+/-- sum of signals of length `n`, starting from `n` zeros -/
+def sumStrict (n : Nat) (ls : List (List α)) : Option (List α) :=
+  sumStrictFrom (List.replicate n Sample.zero) ls
+
+/-- the signal delayed by `k` samples: sample `j` of the output is sample `j - k` of the input, zero
+for `j < k` -/
+def shiftStrict (k : Nat) (l : List α) : List α :=
+  (List.range l.length).map fun j => if j < k then Sample.zero else (l[j - k]?).getD Sample.zero
+
+mutual
+def meaningStrict (fs : Int) (nch : Nat) : Spec α → List (List α) → Option (List α)
+  | .direct i, x =>
+    match colStrict nch i with
+    | some k => columnStrict nch k x
+    | none => none
+  | .silent, x => if x.all (fun fr => fr.length == nch) then some (List.replicate x.length Sample.zero) else none
+  | .mix ts, x =>
+    if x.all (fun fr => fr.length == nch) then
+      match meaningStrictList fs nch ts x with
+      | some ls => sumStrict x.length ls
+      | none => none
+    else none
+  | .gain t g, x => (meaningStrict fs nch t x).map (fun l => l.map (· * g))
+  | .matrix t g d, x =>
+    match meaningStrict fs nch t x with
+    | none => none
+    | some l =>
+      let s := match g with | some g => l.map (· * g) | none => l
+      match d with
+      | none => some s
+      | some ms =>
+        -- the delay rounded to the nearest sample (`delay_rounding`: k - 1/2 < fs·ms/1000 ≤ k + 1/2)
+        let k := delaySamples fs ms
+        if k < 0 then none else some (shiftStrict k.toNat s)
+def meaningStrictList (fs : Int) (nch : Nat) : List (Spec α) → List (List α) → Option (List (List α))
+  | [], _ => some []
+  | t :: ts, x =>
+    match meaningStrict fs nch t x, meaningStrictList fs nch ts x with
+    | some l, some ls => some (l :: ls)
+    | _, _ => none
 end
 
 end
